@@ -211,5 +211,62 @@ class SamplingMonitor(Monitor):
 
     def refusal(self, op, out, s, kind):
         """Documented refusals are accepted as `raised`."""
-        self.w.probe("sampling_raised")
-        return []
+        w = self.w
+        w.probe("sampling_raised")
+        k = op["op"]
+        if kind != "sam" or k not in ("sample_n_inputs", "sample_n_outputs") \
+                or op.get("n", 0) <= 0:
+            return []
+        # "returns exactly N samples" / "every returned state ..." presuppose a
+        # return: a call on a valid configuration with accepting outcomes may
+        # only be refused for the documented reasons
+        msg = str(out.get("msg", ""))
+        exc = out.get("exc")
+        seed = op.get("seed")
+        if exc == "TypeError" and not (seed is None or isinstance(seed, int)):
+            return []                      # seed type outside random.seed's
+        if msg.startswith(("Probability distribution significantly deviated",
+                           "Non photon number resolving",
+                           "sample_N_outputs not compatible")):
+            return []
+        try:
+            own = {tuple(st): float(p) for st, p in
+                   s.probability_distribution.items()}
+        except Exception:  # noqa: BLE001
+            return []                      # the configuration itself is invalid
+        det = s.detector
+        eta, p_dark, pnr = det.efficiency, det.p_dark, det.photon_counting
+        if k == "sample_n_outputs" and (eta != 1 or p_dark != 0):
+            return []
+        hout = dict(s.circuit.heralds["output"])
+        n_free = s.circuit.n_modes - len(hout)
+        ref = op.get("ps")
+        if ref is not None and w.has("ps", ref):
+            pm = w.meta["ps"][ref]
+            if pm["pkind"] == "rules" and any(
+                    m >= n_free or m < 0 for modes, _ns in pm["rules"]
+                    for m in modes):
+                return []                  # a rule names a mode that is not there
+        acc = self.accept_fn(op)
+        undefined = []
+
+        def accept(st):
+            a = acc(st)
+            if a is None:
+                undefined.append(st)
+            return a is not False
+        try:
+            q = push_through_detector(own, eta, p_dark, pnr, hout, accept,
+                                      op.get("md", 0))
+        except Exception:  # noqa: BLE001
+            return []
+        if undefined:
+            return []                      # a rule names a mode that is not there
+        norm = sum(q.values())
+        if k == "sample_n_outputs" and norm <= 1e-6:
+            return []                      # nothing to return: refusal is right
+        w.probe("refusal_judged")
+        return [self.v({"op": k, "consumer": kind, "kind": "raised_on_valid_configuration",
+                        "exc": exc},
+                       f"{k} raised {exc}: {msg[:80]} although the configuration "
+                       f"is valid and the accepted probability is {norm:.3g}")]
